@@ -698,6 +698,9 @@ VmTrap vm_core_execute(VmState *vm) {
         case OP_MOD: {
             NanoValue b = stack_pop(vm);
             NanoValue a = stack_pop(vm);
+            /* Coerce enum to int for arithmetic (as ADD/SUB/MUL/DIV do) */
+            if (a.tag == TAG_ENUM) { a = val_int((int64_t)a.as.enum_val); }
+            if (b.tag == TAG_ENUM) { b = val_int((int64_t)b.as.enum_val); }
             if (a.tag == TAG_INT && b.tag == TAG_INT) {
                 stack_push(vm, val_int(i64_mod(a.as.i64, b.as.i64)));
             } else {
@@ -708,6 +711,7 @@ VmTrap vm_core_execute(VmState *vm) {
 
         case OP_NEG: {
             NanoValue a = stack_pop(vm);
+            if (a.tag == TAG_ENUM) { a = val_int((int64_t)a.as.enum_val); }
             if (a.tag == TAG_INT) {
                 stack_push(vm, val_int(i64_neg(a.as.i64)));
             } else if (a.tag == TAG_FLOAT) {
